@@ -38,6 +38,8 @@ KINDS = {
     "fits-F32n": ("fits", "f4", 0),
     # c: some leaves are degenerate - a constant tile, or a single finite pixel - and hold the extremes
     "fits-F32c": ("fits", "f4", 0),
+    # i: some leaves hold nothing but NaN and a few infinite pixels (defined values)
+    "npy-F32i": ("npy", "f4", 0),
 }
 
 
@@ -64,6 +66,11 @@ def leaf(tid, kind):
                 a[200, 200 + tid % 40] = 0.0  # exactly zero: the extreme of this leaf
             if kind.endswith("n"):
                 a = -a
+        if kind.endswith("i") and tid % 2 == 1:
+            a[...] = np.nan
+            a[10:14, 20:24] = np.inf
+            a[100, 7] = -np.inf
+            und = np.zeros_like(und)
         if kind.endswith("c"):
             if tid % 3 == 0:
                 a[...] = 90000.0 + tid  # constant leaf above every other leaf's range (DATAMIN == DATAMAX)
@@ -259,6 +266,57 @@ def compare_trees(got, want, start, kind, bad, check_range, leaves):
                 break
 
 
+def recascade_case(d, kind, part):
+    """A history on one directory: cascade; a populated leaf's file becomes entirely undefined (and
+    another leaf disappears); cascade again.  Parents whose merged result is now entirely undefined, or
+    that have no child left, must be gone; the others must be the reduction of the *current* children."""
+    from toasty.merge import cascade_images, averaging_merger
+    from toasty.pyramid import PyramidIO, Pos
+    from toasty.image import Image
+
+    fmt, dt, ch = KINDS[kind]
+    cfg = {"recascade": True, "kind": kind}
+    part.case(nontrivial=True)
+
+    def bad(clause, detail):
+        part.violation("%s/%s" % (clause, kind), "%r: %s" % (cfg, detail), cfg)
+
+    root = os.path.join(d, "rc")
+    shutil.rmtree(root, ignore_errors=True)
+    pio = PyramidIO(root, default_format=fmt)
+    pop = (0, 1, 10, 15)  # A=(1,0,0): leaves 0,1 ; B=(1,1,1): leaves 10, 15
+    positions = population_positions(pop, 2)
+    leaves = {pos: leaf(pos[2] * 4 + pos[1], kind) for pos in positions}
+    try:
+        with quiet():
+            write_leaves(pio, leaves, fmt)
+            cascade_images(pio, 2, averaging_merger, parallel=1)
+            # leaf 10 and 15 (all of B's children) are replaced by entirely undefined tiles whose files still
+            # exist (written by other means); leaf 1 is deleted
+            blank = leaves[positions[2]].copy()
+            if dt[0] == "f":
+                blank[...] = np.nan
+            else:
+                blank[...] = 0
+            for pos in (positions[2], positions[3]):
+                Image.from_array(np.ascontiguousarray(to_disk(blank, fmt))).save(pio.tile_path(Pos(*pos)), format=fmt)
+                leaves[pos] = blank
+            os.unlink(pio.tile_path(Pos(*positions[1])))
+            del leaves[positions[1]]
+            cascade_images(pio, 2, averaging_merger, parallel=1)
+    except Exception as e:
+        bad("recascade-raises:%s" % type(e).__name__, repr(e))
+        return
+    got = read_tree(root, fmt)
+    want = expected_tree(leaves, 2, kind)
+    above_got = set(p for p in got if p[0] < 2)
+    above_want = set(p for p in want if p[0] < 2)
+    stale = sorted(above_got - above_want)
+    if stale:
+        bad("recascade/stale-parent-survives", "after the second cascade tiles %r still exist although their merged result is entirely undefined (or they have no child left)" % (stale,))
+    compare_trees({p: v for p, v in got.items() if p not in stale}, want, 2, kind, bad, False, leaves)
+
+
 def populations(tier, start):
     if start == 1:
         return [tuple(k for k in range(4) if m >> k & 1) for m in range(16)]
@@ -286,9 +344,14 @@ def _serial_job(job):
     prop_range = job[0]
     with scratch("c02") as d:
         for item in job[1]:
+            if item[0] == "recascade":
+                recascade_case(d, item[1], part)
+                continue
             (start, pop, kind, flt) = item[:4]
             serial_case(d, start, pop, kind, flt, part, check_range=prop_range, entry=item[4] if len(item) > 4 else "api")
-        part.sample({"start": job[1][0][0], "population": list(job[1][0][1]), "kind": job[1][0][2], "filter": job[1][0][3]})
+        first = [it for it in job[1] if it[0] != "recascade"]
+        if first:
+            part.sample({"start": first[0][0], "population": list(first[0][1]), "kind": first[0][2], "filter": first[0][3]})
     return part
 
 
@@ -441,6 +504,9 @@ def build_jobs(tier, seed, kinds, check_range, e1_kinds):
         for pop in [(0, 5, 10, 15), (0, 1, 4, 5, 10), tuple(range(16))]:
             cases.append((2, pop, kind, False, "cli"))
             cases.append((2, pop, kind, False, "builder"))
+    for kind in kinds:
+        if KINDS[kind][2] in (0, 4) and KINDS[kind][1][0] == "f" or KINDS[kind][2] == 4:
+            cases.append(("recascade", kind))
     cases = rng_order(cases, seed)
     n = 40
     jobs = [("serial", check_range, cases[i::n]) for i in range(n) if cases[i::n]]
@@ -452,7 +518,7 @@ def build_jobs(tier, seed, kinds, check_range, e1_kinds):
 
 def run(tier, seed):
     rep = Report(PROP, tier, seed, "model_checking")
-    kinds = ["npy-F32", "npy-U8", "png-RGBA", "png-RGB", "fits-F32"] + (["npy-I16", "npy-F64"] if tier == "thorough" else [])
+    kinds = ["npy-F32", "npy-U8", "png-RGBA", "png-RGB", "fits-F32", "npy-F32i"] + (["npy-I16", "npy-F64"] if tier == "thorough" else [])
     rep.rule = (
         "E2: start depth 1 (all 16 leaf subsets) and 2 (%d sparse populations), formats %r, without a filter and with one accepting every populated tile: "
         "serial cascade vs reference merge, pixel-exact. E1: real TileMerger under the virtual scheduler, all interleavings, terminal tree = serial tree. "
@@ -489,6 +555,12 @@ def replay(payload):
             print("REPLAY-FAIL", sig, detail)
         return 1 if viol else 0
     part = Part()
+    if r.get("recascade"):
+        with scratch("c02r") as d:
+            recascade_case(d, r["kind"], part)
+        for sig, (detail, _) in part.violations.items():
+            print("REPLAY-FAIL", sig, detail[:400])
+        return 1 if part.violations else 0
     with scratch("c02r") as d:
         serial_case(d, r["start"], tuple(r["population"]), r["kind"], r["filter"], part, check_range=True, entry=r.get("entry", "api"))
     for sig, (detail, _) in part.violations.items():
